@@ -100,9 +100,11 @@ theorem smboPropose_spec {cfg : SmboCfg} {sp : Space} {f : Pos → Bool} {s : Sm
         simp only at h
         split at h
         · simp at h
-        · obtain ⟨a, b⟩ := pickByAcq_spec h
-          refine ⟨?_, hc p (sampleCands_sub hs p b)⟩
-          rw [htape]; exact a.trans (List.suffix_cons _ _)
+        · split at h
+          · simp at h
+          · obtain ⟨a, b⟩ := pickByAcq_spec h
+            refine ⟨?_, hc p (sampleCands_sub hs p b)⟩
+            rw [htape]; exact a.trans (List.suffix_cons _ _)
     · simp at h
     · simp at h
   · cases htt : trainTape cfg s with
